@@ -121,6 +121,15 @@ func (c *VirtualTable) BestIndex(input *sqlite.IndexInfoInput) (*sqlite.IndexInf
 			}
 		}
 	}
+	// xFilter arguments must be numbered 1..n without gaps, in the order
+	// Filter reads them, even when unusable constraints come first.
+	argv := 0
+	for i := range used {
+		if used[i] != nil {
+			argv++
+			used[i].ArgvIndex = argv
+		}
+	}
 	return &sqlite.IndexInfoOutput{
 		EstimatedCost:   indexOut.EstimatedCost,
 		ConstraintUsage: used,
